@@ -387,6 +387,18 @@ theorem resolveEncoding_guess (st : Static) (defs : Defs) (c : RCtx) (hlast : c.
     rw [hcg] at h
     rw [guessOf_canGuess, chooseEncoding_guess rs encs rep h]
 
+theorem allDefinite_guess (st : Static) (defs : Defs) (c : RCtx) (cands : List IMatch)
+    (x : Option (List (Nat × BI)) × List String)
+    (h : resolveEncoding st defs evalFuel c cands {} = .ok x) :
+    allDefinite st defs (guessOf c) cands = allDefinite st defs c cands := by
+  rw [evalFuel_succ'] at h
+  simp only [resolveEncoding] at h
+  unfold allDefinite
+  cases hm : resolveMatches st defs (evalFuel - 1) c cands {} [] with
+  | error e => rw [hm] at h; cases h
+  | ok y =>
+    rw [resolveMatches_mono st defs _ c cands {} [] _ hm]
+
 theorem resolveInstruction_guess (st : Static) (defs defs' : Defs) (c : RCtx) (hlast : c.last = true) (ref : Nat) (rep : List String)
     (h : resolveInstruction st defs c ref = .ok (defs', true, rep)) :
     ∃ b rep', resolveInstruction st defs (guessOf c) ref = .ok (defs', b, rep') := by
@@ -403,17 +415,20 @@ theorem resolveInstruction_guess (st : Static) (defs defs' : Defs) (c : RCtx) (h
       cases encs with
       | none => simp at h
       | some l =>
+        have hd := allDefinite_guess st defs c _ _ he
         rw [resolveEncoding_guess st defs c hlast _ _ l reported he]
         cases l with
         | nil => simp at h
         | cons e t =>
           simp only [Option.bind_some, List.head?_cons, Option.map_some] at h ⊢
           rcases ite_inv _ _ _ _ h with ⟨hs, h⟩ | ⟨hs, h⟩
-          · have hs' : (st.opts.optStatic && (guessOf c).first && (defs.instrs.getD ref default).known && ((e :: t).length == 1)) = true := hs
+          · have hs' : (st.opts.optStatic && (guessOf c).first && (defs.instrs.getD ref default).known && ((e :: t).length == 1) &&
+                allDefinite st defs (guessOf c) ((defs.instrs.getD ref default).cands.map (·.m))) = true := by rw [hd]; exact hs
             rw [if_pos hs']
             injection h with h; injection h with h1 _
             exact ⟨true, [], by rw [h1]⟩
-          · have hs' : ¬ (st.opts.optStatic && (guessOf c).first && (defs.instrs.getD ref default).known && ((e :: t).length == 1)) = true := hs
+          · have hs' : ¬ (st.opts.optStatic && (guessOf c).first && (defs.instrs.getD ref default).known && ((e :: t).length == 1) &&
+                allDefinite st defs (guessOf c) ((defs.instrs.getD ref default).cands.map (·.m))) = true := by rw [hd]; exact hs
             rw [if_neg hs']
             rcases ite_inv _ _ _ _ h with ⟨_, h⟩ | ⟨hc, h⟩
             · injection h with h; injection h with _ h2; injection h2 with h2 _; cases h2
